@@ -32,7 +32,7 @@
    last ending one or two bytes (the line end) before the returned offset. *)
 From Sipsp Require Import Harness Framing Resume SafeMore SafeMsg Layout FLineConv TrimSpec SigCoherent LowerBound.
 From Sipsp Require Import Tables.
-From Sipsp Require Import CSeqNest NameAddrNest NameAddrTag.
+From Sipsp Require Import CSeqNest NameAddrNest NameAddrTag UpperBound NestMsg.
 
 Theorem C05_body_and_raw_message : forall m h e,
   pf_end (m_body (finished m h e)) = h + (e - h) /\
@@ -174,6 +174,27 @@ Theorem C05_nameaddr_tag_inside_params : forall h buf offs s o e s', fb_fed h bu
   e = EOk \/ e = EMoreValues ->
   pl (fb_tag s') = 0 \/ (po (fb_params s') <= po (fb_tag s') /\ pf_end (fb_tag s') <= pf_end (fb_params s')).
 Proof. exact nameaddr_tag_nest. Qed.
+(* ---- ... and at message level: From, To, CSeq, every Contact value and every P-Asserted-Identity value kept in PHdrVals ------------------- *)
+Theorem C05_message_subfields_nest : forall flags buf offs bl n nc o e m', offs <= nnat (length buf) ->
+  parse_sipmsg flags buf offs (msg_init bl (repeat hdr0 n) (repeat pfrom0 nc)) = Done o e m' -> m_state m' = MFIN \/ m_state m' = MNoCLen ->
+  NSv (msg_pv m').
+Proof. exact message_np. Qed.
+Theorem C05_message_subfields_nest_fed : forall flags B offs bl n nc o s o' e m', testbit flags bSIPMsgNoMoreData = false -> offs <= nnat (length B) ->
+  feeds flags B offs (msg_init bl (repeat hdr0 n) (repeat pfrom0 nc)) o s ->
+  parse_sipmsg flags B o s = Done o' e m' -> m_state m' = MFIN \/ m_state m' = MNoCLen -> NSv (msg_pv m').
+Proof. exact message_np_fed. Qed.
+Theorem C05_subfields_nest_means : forall v, NSv v <->
+  let inside (s : pfrom) :=
+    ((pl (fb_name s) = 0 \/ (po (fb_v s) <= po (fb_name s) /\ pf_end (fb_name s) <= pf_end (fb_v s))) /\
+     (pl (fb_uri s) = 0 \/ (po (fb_v s) <= po (fb_uri s) /\ pf_end (fb_uri s) <= pf_end (fb_v s))) /\
+     (pl (fb_params s) = 0 \/ (po (fb_v s) <= po (fb_params s) /\ pf_end (fb_params s) <= pf_end (fb_v s)))) /\
+    (pl (fb_tag s) = 0 \/ (po (fb_params s) <= po (fb_tag s) /\ pf_end (fb_tag s) <= pf_end (fb_params s))) in
+  inside (pv_from v) /\ inside (pv_to v) /\
+  (po (cs_v (pv_cseq v)) = po (cs_cseq (pv_cseq v)) /\ pf_end (cs_cseq (pv_cseq v)) <= po (cs_method (pv_cseq v)) /\
+   pf_end (cs_method (pv_cseq v)) = pf_end (cs_v (pv_cseq v))) /\
+  (Forall inside (ct_vals (pv_contacts v)) /\ inside (ct_last (pv_contacts v)) /\ inside (ct_first (pv_contacts v))) /\
+  (Forall inside (pa_vals (pv_pais v)) /\ inside (pa_last (pv_pais v))).
+Proof. intros. reflexivity. Qed.
 Theorem C05_nameaddr_schedules_mean : forall h buf' o s', fb_fed h buf' o s' <->
   (s' = pfrom0 /\ o <= nnat (length buf')) \/
   exists buf offs s, fb_fed h buf offs s /\ parse_nameaddr h buf offs s = Done o EMore s' /\
@@ -204,6 +225,8 @@ Print Assumptions C05_message.
 Print Assumptions C05_cseq_fields_nest.
 Print Assumptions C05_nameaddr_fields_nest.
 Print Assumptions C05_nameaddr_tag_inside_params.
+Print Assumptions C05_message_subfields_nest.
+Print Assumptions C05_message_subfields_nest_fed.
 Print Assumptions C05_message_every_schedule.
 Print Assumptions C05_stored_values_trimmed.
 Print Assumptions C05_values_after_names.
